@@ -47,7 +47,10 @@ def argclass(e):
             pos = "absent-between"
         parts.append("key:" + pos)
     if op in ("get_keys", "get_values", "get_pairs"):
-        parts.append("own-list" if e["args"][0] else "no-list")
+        np_, dc, reps = e["args"]
+        parts.append("dest=NULL" if np_ < 0 else "dest=%s,prior=%d" % (["", "array", "linked_list", "dlinked_list"][dc], np_))
+        if reps == 2:
+            parts.append("twice")
     return ",".join(parts)
 
 
@@ -123,8 +126,9 @@ def gen_history(rnd, nops, nk, nv):
             c = "done"
             have = set()
         elif r < 0.80:
-            c = rnd.choice(["get %d" % pk, "has_key %d" % pk, "has_value %d" % rnd.randint(1, nv + 1), "count",
-                            "get_keys T", "get_keys F", "get_values T", "get_values F", "get_pairs T", "get_pairs F"])
+            c = rnd.choice(["get %d" % pk, "has_key %d" % pk, "has_value %d" % rnd.randint(1, nv + 1), "count"] + ["%s %s %d" % (rnd.choice(["get_keys", "get_values", "get_pairs"]),
+                                                  rnd.choice(["-1 0", "-1 0"] + (["%d %d" % (rnd.randint(0, 3), rnd.randint(1, 3))] * 4 if bhave is None else [])),
+                                                  rnd.randint(1, 2)) for _ in range(6)])
         elif r < 0.84:
             if bhave is None:
                 c = "iter_new"
